@@ -66,6 +66,7 @@ class Interp:
         self._desc_ord = {}
         self._loop_heads = {}
         self._thresholds = {}
+        self._liveness = {}
         self.quiet_fns = set(self.opt.get("quiet_fns", ()))   # obligations in these fns are not recorded
 
     # ------------------------------------------------------------------ hooks
@@ -399,7 +400,7 @@ class Interp:
         if k in ("copy", "move"):
             v, loc = self.read_place(st, frame, o["place"])
             # copying a Box aliases it
-            if isinstance(v, Arr) and v.container == "box" and loc is not None:
+            if k == "copy" and isinstance(v, Arr) and v.container == "box" and loc is not None:
                 return Ref(loc[0], loc[1], True), None
             return v, loc
         if k == "const":
